@@ -153,7 +153,7 @@ pub fn reinsert(i: u8, ctx: Ctx) {
         }
         Got::FromAdapter(f) => (f, None, Kind::Gen { fd: FdKind::Socket, int: Int::Read, md: Md::Level }, None),
     };
-    let spec = SourceSpec { kind: kindspec, lifecycle: false, prog: vec![], fault: None, via_insert: false, bad_fd: None, ready_at_insert: false, owns_adapter: false };
+    let spec = SourceSpec { kind: kindspec, lifecycle: false, prog: vec![], fault: None, via_insert: false, bad_fd: None, ready_at_insert: false, owns_adapter: false, bs_fail: None };
     // the harness reads and writes its sources' fds itself: they must never block
     sysx::set_nonblocking(fdx.raw, true);
     w(|w| w.count("reinsert_released_fd"));
